@@ -1,6 +1,6 @@
 """what MANIFEST.json claims per property (tools/mkmanifest.py turns this into the manifest)"""
 
-FIX_COMMITS = ['0369c7c', 'e5963ae', '7c0fb30', '7b59f02', '74366c8', 'b68f84c', 'a968b66', 'a15d91b']
+FIX_COMMITS = ['0369c7c', 'e5963ae', '7c0fb30', '7b59f02', '74366c8', 'b68f84c', 'a968b66', 'a15d91b', '2992cec', '3ad884d']
 
 _NOTE = ('bounded: holds for every value of the symbolic inputs inside the boxes and sizes '
          'listed in the evidence file, nothing is claimed outside; trusted: CPython, z3, the '
@@ -155,6 +155,15 @@ CLAIMS = {
                 'symbolic traces.',
         'note': _NOTE + '; float absorption (now + tiny == now) and hash-seed effects on str '
                         'hashing are outside the exact-arithmetic claim',
+    },
+    'C19': {
+        'text': 'Request dates, amounts, priorities, capacities (and filters / kinds as finite '
+                'choices) are symbolic; a call-through monitor logs the exact moment of every '
+                'grant; a sequential reference model per resource type is stepped through the '
+                'log and every path proves: each grant is the one the policy serves next and is '
+                'legal in that state, and at the end of every time step no request the policy '
+                'would serve next is grantable.',
+        'note': _NOTE,
     },
 }
 
